@@ -5,6 +5,7 @@ import io
 
 from hypothesis import strategies as st
 
+from pv import core  # noqa: E402
 from pv import framing, gen, model, streams
 from pv.core import Fail, Res, Sub, lib_frame
 from pv.doubles import BudgetBytesIO, HardStop, ScriptedStream
@@ -55,6 +56,7 @@ def _o_ctor(case):
     from pyrtcm import RTCMMessage
 
     p = bytes.fromhex(case["payload"])
+    core.note_input(len(p) + 16)
     evals = 0
     kinds = set()
     for lm in (1, 2):
@@ -137,6 +139,7 @@ def o_mut(case):
     from pyrtcm import RTCMMessage, RTCMReader
 
     p0 = bytes.fromhex(case["payload"])
+    core.note_input(len(p0) + 16)
     p = mutate(p0, case)
     k, v = guarded(lambda: RTCMMessage(payload=p), f"mutation {case['mut']} of {case['ident']}: RTCMMessage({p.hex()[:60]}.. len {len(p)})")
     if len(p) <= 1023:
@@ -160,6 +163,7 @@ def o_vtec(case):
     from pyrtcm.rtcmhelpers import parse_4076_201
 
     p = bytes.fromhex(case["payload"])
+    core.note_input(len(p) + 16)
     k, v = guarded(lambda: RTCMMessage(payload=p), f"4076_201 body {p.hex()[:80]}")
     return Res(nontrivial=True, classes=[k])
 
@@ -184,6 +188,7 @@ def _o_static(case):
     from pyrtcm import RTCMReader
 
     buf = bytes.fromhex(case["buf"])
+    core.note_input(len(buf) + 16)
     kinds = set()
     for val in (0, 1):
         k, _ = guarded(lambda: RTCMReader.parse(buf, validate=val), f"RTCMReader.parse({buf.hex()[:60]}.. len {len(buf)}, validate={val})")
@@ -267,6 +272,7 @@ def _o_iter(case):
                 self.p += n
                 return n
 
+        core.note_input(len(data) + 16)
         stream = io.BufferedReader(_Raw(data), buffer_size=case.get("chunk", 64) or 64)
     else:
         stream = BudgetBytesIO(data)
